@@ -1161,6 +1161,12 @@ def oracle(ctx, widened):
     for _ in range(60 if big else 8):
         scale_case(out, rng)
 
+    # ---- 3b'. a table dated in UTC (or any scale) that runs over a leap second: nodes exact, between nodes true to the physical elapsed time
+    import random as _random
+    lrng = _random.Random(f"C09-leap-{ctx.seed}")      # its own stream: the cases of the other sections stay what they were
+    for _ in range(80 if big else 12):
+        leap_case(out, lrng)
+
     # ---- 3c. order / method set on a live ephemeris (or interpolator) are honoured in every interval, visited before or not
     for _ in range(300 if big else 40):
         setter_case(out, rng)
@@ -1246,6 +1252,49 @@ def orbit_case(out, rng):
         if not (err <= tol):
             out.fail(f"orbit-accuracy/{pos}/order-{par(order)}", f"interpolated position is {err:.3f} m from the true one (step = period/{frac}, order {order})",
                      {"sma": sma, "ecc": ecc, "kep": list(map(float, kep)), "times": times, "t": t, "order": order, "sampling": style}, observed=err, expected=f"<= {tol:.3f} m")
+
+
+def leap_case(out, rng):
+    """an ephemeris whose dates run over the leap second of 2015-06-30 (real EOP tables: TAI-UTC 35 s -> 36 s), dated in UTC or in a
+    uniform scale: nodes are returned exactly, and between nodes - in the interval that contains the leap second and in its neighbours -
+    the interpolated position is the true Keplerian one at that physical instant"""
+    import numpy as np
+    from beyond.dates import Date, timedelta
+    from beyond.orbits import Ephem
+    kep, period, sma, ecc = kepler_ephem(rng)
+    own = rng.choice(["UTC", "UTC", "UTC", "TAI", "GPS"])
+    step = q(period / 100, 1.0)
+    order = rng.choice([6, 8, 8, 11])
+    n = rng.randint(order + 4, 30)
+    times = [q(i * step + (0 if i == 0 else rng.uniform(-0.2, 0.2) * step)) for i in range(n)]
+    k = rng.randrange(order // 2, n - 1 - order // 2)            # the interval [times[k], times[k+1]] holds the leap second
+    leap = Date(2015, 7, 1, 0, 0, 0, scale="UTC")                 # the instant right after 23:59:60
+    d0 = leap - timedelta(seconds=q(times[k] + rng.uniform(0.05, 0.95) * (times[k + 1] - times[k])))
+    kep0 = kep.copy()
+    kep0.date = d0
+    pts = []
+    for t in times:
+        o = kep0.propagate(d0 + timedelta(seconds=t)).copy(form="cartesian")
+        o.date = o.date.change_scale(own)
+        pts.append(o)
+    eph = Ephem(pts, method="lagrange", order=order)
+    tol = 2e-6 * sma
+    for i in sorted({k - 1, k, k + 1, rng.randrange(order // 2, n - 1 - order // 2)}):
+        for f in (0.5, rng.uniform(0.05, 0.95), 0.0):
+            t = q(times[i] + f * (times[i + 1] - times[i]))
+            dq = (d0 + timedelta(seconds=t)).change_scale(rng.choice([own, "TAI", "UTC"]))
+            truth = np.asarray(kep0.propagate(d0 + timedelta(seconds=t)).copy(form="cartesian"), dtype=float)
+            pos = "node" if f == 0.0 else ("leap-interval" if i == k else "neighbour" if abs(i - k) == 1 else "far")
+            out.count(key=("leap", own, str(d0), t, dq.scale.name), kind=f"leap-{pos}", table=own)
+            kind, r = error_kind(lambda: eph.interpolate(dq))
+            inp = {"kep": list(map(float, kep)), "epoch": str(d0), "table_scale": own, "times": times, "t": t, "query_scale": dq.scale.name, "order": order, "leap_interval": k}
+            if kind != "ok":
+                out.fail(f"leap-second-table/{pos}/refused", "a date inside a table that runs over a leap second is refused", inp, observed=kind, expected="ok")
+                continue
+            err = float(np.linalg.norm(np.asarray(r, dtype=float)[:3] - truth[:3]))
+            if not err <= (1e-3 if f == 0.0 else tol):
+                out.fail(f"leap-second-table/{pos}", f"table over a leap second: interpolated position is {err:.3f} m from the true one", inp, observed=err,
+                         expected=f"<= {(1e-3 if f == 0.0 else tol):.3f} m")
 
 
 def scale_case(out, rng):
